@@ -23,6 +23,7 @@ def run(ctx):
     E.r_fresh_value(prog, rep)
     E.r_singleuse_bits(prog, rep)
     E.r_invalid_window(prog, rep)
+    E.r_epoch_persist(prog, rep)
 
 
 from rules.engine_variants import C01 as VARIANTS  # noqa: E402
